@@ -10,8 +10,12 @@ import (
 
 	"github.com/tuneinsight/lattigo/v6/core/rlwe"
 	"github.com/tuneinsight/lattigo/v6/multiparty"
+	"github.com/tuneinsight/lattigo/v6/multiparty/mpbgv"
+	"github.com/tuneinsight/lattigo/v6/multiparty/mpckks"
 	"github.com/tuneinsight/lattigo/v6/ring"
 	"github.com/tuneinsight/lattigo/v6/ring/ringqp"
+	"github.com/tuneinsight/lattigo/v6/schemes/bgv"
+	"github.com/tuneinsight/lattigo/v6/schemes/ckks"
 	"github.com/tuneinsight/lattigo/v6/utils/structs"
 	"pgregory.net/rapid"
 )
@@ -27,15 +31,15 @@ type MPCase struct {
 	Rot   int         `json:"rot"`
 	// evaluation-key parameters of the EVK / GKG / RKG shares
 	EvkLevelQDrop int  `json:"evkLevelQDrop"`
-	EvkNoP        bool `json:"evkNoP"`   // LevelP = -1 although the parameters may have an auxiliary modulus
-	EvkBase2      int  `json:"evkBase2"` // BaseTwoDecomposition (0 = none)
+	EvkNoP        bool `json:"evkNoP"`     // LevelP = -1 although the parameters may have an auxiliary modulus
+	EvkBase2      int  `json:"evkBase2"`   // BaseTwoDecomposition (0 = none)
 	EvkDefault    bool `json:"evkDefault"` // no explicit evaluation-key parameters at all
 }
 
 func (c MPCase) RandSeed() uint64 { return c.Seed }
 
 var mpProtos = []string{"PublicKeyGen", "RelinearizationKeyGen", "RelinearizationKeyGenRoundTwo", "EvaluationKeyGen", "GaloisKeyGen", "KeySwitch", "PublicKeySwitch",
-	"EvaluationKeyGen", "GaloisKeyGen", "RelinearizationKeyGen", "Threshold"}
+	"EvaluationKeyGen", "GaloisKeyGen", "RelinearizationKeyGen", "Threshold", "RefreshBGV", "RefreshCKKS"}
 
 func genMPCase(t *rapid.T) MPCase {
 	s := poolSpec(t, true, nil, 0)
@@ -221,6 +225,7 @@ func mpCheck[S any, PS binShare[S]](c MPCase, rec *h.Rec, o mpOps[S]) error {
 				}
 				if ferr != nil {
 					rec.Class("finalize=rejected-with-error")
+					rec.Class("finalize-rejected:" + c.Proto + ":" + cause + ":" + trunc(ferr.Error(), 70))
 					continue
 				}
 				if !bytes.Equal(bin(&ag), want) || o.inputs() != preIn {
@@ -324,15 +329,19 @@ func runMP(c MPCase, rec *h.Rec) error {
 
 	var pan string
 	var res error
-	_, pan = protect(func() error {
+	var serr error
+	serr, pan = protect(func() error {
 		switch c.Proto {
 		case "PublicKeyGen":
 			pr := multiparty.NewPublicKeyGenProtocol(p)
 			crp := pr.SampleCRP(crs)
 			res = mpCheck(c, rec, mpOps[multiparty.PublicKeyGenShare]{
-				alloc:  pr.AllocateShare,
-				gen:    func(i int, out *multiparty.PublicKeyGenShare) error { pr.GenShare(sks[i], crp, out); return nil },
-				agg:    func(a, b multiparty.PublicKeyGenShare, out *multiparty.PublicKeyGenShare) error { pr.AggregateShares(a, b, out); return nil },
+				alloc: pr.AllocateShare,
+				gen:   func(i int, out *multiparty.PublicKeyGenShare) error { pr.GenShare(sks[i], crp, out); return nil },
+				agg: func(a, b multiparty.PublicKeyGenShare, out *multiparty.PublicKeyGenShare) error {
+					pr.AggregateShares(a, b, out)
+					return nil
+				},
 				inputs: func() string { return skFP() + fmt.Sprintf("crp:%x", hashPolyQP(crp.Value)) },
 				fin: func(agg multiparty.PublicKeyGenShare, mode int) (string, error) {
 					out := rlwe.NewPublicKey(p)
@@ -403,9 +412,11 @@ func runMP(c MPCase, rec *h.Rec) error {
 			pr := multiparty.NewEvaluationKeyGenProtocol(p)
 			crp := pr.SampleCRP(crs, evkp...)
 			res = mpCheck(c, rec, mpOps[multiparty.EvaluationKeyGenShare]{
-				alloc:  func() multiparty.EvaluationKeyGenShare { return pr.AllocateShare(evkp...) },
-				gen:    func(i int, out *multiparty.EvaluationKeyGenShare) error { return pr.GenShare(sks[i], skOut, crp, out) },
-				agg:    func(a, b multiparty.EvaluationKeyGenShare, out *multiparty.EvaluationKeyGenShare) error { return pr.AggregateShares(a, b, out) },
+				alloc: func() multiparty.EvaluationKeyGenShare { return pr.AllocateShare(evkp...) },
+				gen:   func(i int, out *multiparty.EvaluationKeyGenShare) error { return pr.GenShare(sks[i], skOut, crp, out) },
+				agg: func(a, b multiparty.EvaluationKeyGenShare, out *multiparty.EvaluationKeyGenShare) error {
+					return pr.AggregateShares(a, b, out)
+				},
 				inputs: func() string { return skFP() + "crp:" + hashMatrixQP(crp.Value) },
 				fin: func(agg multiparty.EvaluationKeyGenShare, mode int) (string, error) {
 					out := rlwe.NewEvaluationKey(p, evkp...)
@@ -421,9 +432,11 @@ func runMP(c MPCase, rec *h.Rec) error {
 			crp := pr.SampleCRP(crs, evkp...)
 			galEl := p.GaloisElement(c.Rot)
 			res = mpCheck(c, rec, mpOps[multiparty.GaloisKeyGenShare]{
-				alloc:  func() multiparty.GaloisKeyGenShare { return pr.AllocateShare(evkp...) },
-				gen:    func(i int, out *multiparty.GaloisKeyGenShare) error { return pr.GenShare(sks[i], galEl, crp, out) },
-				agg:    func(a, b multiparty.GaloisKeyGenShare, out *multiparty.GaloisKeyGenShare) error { return pr.AggregateShares(a, b, out) },
+				alloc: func() multiparty.GaloisKeyGenShare { return pr.AllocateShare(evkp...) },
+				gen:   func(i int, out *multiparty.GaloisKeyGenShare) error { return pr.GenShare(sks[i], galEl, crp, out) },
+				agg: func(a, b multiparty.GaloisKeyGenShare, out *multiparty.GaloisKeyGenShare) error {
+					return pr.AggregateShares(a, b, out)
+				},
 				inputs: func() string { return skFP() + "crp:" + hashMatrixQP(crp.Value) },
 				fin: func(agg multiparty.GaloisKeyGenShare, mode int) (string, error) {
 					out := rlwe.NewGaloisKey(p, evkp...)
@@ -456,9 +469,14 @@ func runMP(c MPCase, rec *h.Rec) error {
 			recipient := multiparty.ShamirPublicPoint(1 + c.Rot%3)
 			points := []multiparty.ShamirPublicPoint{1, 2, 3}
 			res = mpCheck(c, rec, mpOps[multiparty.ShamirSecretShare]{
-				alloc:  thr.AllocateThresholdSecretShare,
-				gen:    func(i int, out *multiparty.ShamirSecretShare) error { thr.GenShamirSecretShare(recipient, polys[i], out); return nil },
-				agg:    func(a, b multiparty.ShamirSecretShare, out *multiparty.ShamirSecretShare) error { return thr.AggregateShares(a, b, out) },
+				alloc: thr.AllocateThresholdSecretShare,
+				gen: func(i int, out *multiparty.ShamirSecretShare) error {
+					thr.GenShamirSecretShare(recipient, polys[i], out)
+					return nil
+				},
+				agg: func(a, b multiparty.ShamirSecretShare, out *multiparty.ShamirSecretShare) error {
+					return thr.AggregateShares(a, b, out)
+				},
 				inputs: func() string { return skFP() + "poly:" + polyFP() },
 				fin: func(agg multiparty.ShamirSecretShare, mode int) (string, error) {
 					cmb := multiparty.NewCombiner(p, recipient, points, 2)
@@ -473,15 +491,91 @@ func runMP(c MPCase, rec *h.Rec) error {
 					return fmt.Sprintf("%x", hashPolyQP(out.Value)), err
 				},
 			})
+		case "RefreshBGV", "RefreshCKKS":
+			if !c.RLWE.NTT || (c.Proto == "RefreshBGV" && c.RLWE.CI) {
+				return fmt.Errorf("harness: refresh needs NTT parameters (bgv: standard ring)")
+			}
+			maxLvl := p.MaxLevel()
+			var rct *rlwe.Ciphertext
+			var crp multiparty.KeySwitchCRP
+			var gen func(i int, out *multiparty.RefreshShare) error
+			var agg func(a, b multiparty.RefreshShare, out *multiparty.RefreshShare) error
+			var fin func(in *rlwe.Ciphertext, share multiparty.RefreshShare, out *rlwe.Ciphertext) error
+			var alloc func() multiparty.RefreshShare
+			lvl := clampLevel(maxLvl, c.Drop)
+			if c.Proto == "RefreshBGV" {
+				bp, err := bgv.NewParametersFromLiteral(bgv.ParametersLiteral{LogN: c.RLWE.LogN, Q: c.RLWE.Q, P: c.RLWE.P, PlaintextModulus: 65537})
+				if err != nil {
+					return err
+				}
+				pr, err := mpbgv.NewRefreshProtocol(bp, noise)
+				if err != nil {
+					return err
+				}
+				rct = bgv.NewCiphertext(bp, 1, lvl)
+				crp = pr.SampleCRP(maxLvl, crs)
+				alloc = func() multiparty.RefreshShare { return pr.AllocateShare(lvl, maxLvl) }
+				gen = func(i int, out *multiparty.RefreshShare) error { return pr.GenShare(sks[i], rct, crp, out) }
+				agg = pr.AggregateShares
+				fin = func(in *rlwe.Ciphertext, share multiparty.RefreshShare, out *rlwe.Ciphertext) error {
+					return pr.Finalize(in, crp, share, out)
+				}
+			} else {
+				rt := ring.Standard
+				if c.RLWE.CI {
+					rt = ring.ConjugateInvariant
+				}
+				cp, err := ckks.NewParametersFromLiteral(ckks.ParametersLiteral{LogN: c.RLWE.LogN, Q: c.RLWE.Q, P: c.RLWE.P, RingType: rt, LogDefaultScale: 20})
+				if err != nil {
+					return err
+				}
+				pr, err := mpckks.NewRefreshProtocol(cp, 64, noise)
+				if err != nil {
+					return err
+				}
+				rct = ckks.NewCiphertext(cp, 1, lvl)
+				crp = pr.SampleCRP(maxLvl, crs)
+				alloc = func() multiparty.RefreshShare { return pr.AllocateShare(lvl, maxLvl) }
+				gen = func(i int, out *multiparty.RefreshShare) error { return pr.GenShare(sks[i], 25, rct, crp, out) }
+				agg = func(a, b multiparty.RefreshShare, out *multiparty.RefreshShare) error {
+					return pr.AggregateShares(&a, &b, out)
+				}
+				fin = func(in *rlwe.Ciphertext, share multiparty.RefreshShare, out *rlwe.Ciphertext) error {
+					return pr.Finalize(in, crp, share, out)
+				}
+			}
+			rng := h.NewSplitMix(c.Seed ^ 0xa0)
+			for i := range rct.Value {
+				fillPoly(p.RingQ().AtLevel(lvl), rct.Value[i], rng, 0)
+			}
+			rfp := func() string { return skFP() + fmt.Sprintf("%v|crp:%x", snapEl(rct.El(), true), hashPoly(crp.Value)) }
+			res = mpCheck(c, rec, mpOps[multiparty.RefreshShare]{
+				alloc: alloc, gen: gen, agg: agg, inputs: rfp,
+				fin: func(share multiparty.RefreshShare, mode int) (string, error) {
+					in, out := rct, rlwe.NewCiphertext(p, 1, maxLvl)
+					switch mode {
+					case 1: // Finalize documents an error for receivers of degree != 1: used before at degree 1
+						out = e.mkCt(CtSpec{Deg: 1}, h.NewSplitMix(c.Seed^0x6b73))
+					case 2:
+						in = rct.CopyNew()
+						out = in
+					}
+					*out.MetaData = *rct.MetaData
+					err := fin(in, share, out)
+					return fmt.Sprintf("%v", snapEl(out.El(), false)), err
+				},
+			})
 		case "KeySwitch":
 			pr, err := multiparty.NewKeySwitchProtocol(p, noise)
 			if err != nil {
 				return err
 			}
 			res = mpCheck(c, rec, mpOps[multiparty.KeySwitchShare]{
-				alloc:  func() multiparty.KeySwitchShare { return pr.AllocateShare(ct.Level()) },
-				gen:    func(i int, out *multiparty.KeySwitchShare) error { pr.GenShare(sks[i], skOut, ct, out); return nil },
-				agg:    func(a, b multiparty.KeySwitchShare, out *multiparty.KeySwitchShare) error { return pr.AggregateShares(a, b, out) },
+				alloc: func() multiparty.KeySwitchShare { return pr.AllocateShare(ct.Level()) },
+				gen:   func(i int, out *multiparty.KeySwitchShare) error { pr.GenShare(sks[i], skOut, ct, out); return nil },
+				agg: func(a, b multiparty.KeySwitchShare, out *multiparty.KeySwitchShare) error {
+					return pr.AggregateShares(a, b, out)
+				},
 				inputs: func() string { return skFP() + ctFP() },
 				fin: func(agg multiparty.KeySwitchShare, mode int) (string, error) {
 					in, out := ksReceiver(e, ct, mode, c.Seed)
@@ -495,9 +589,11 @@ func runMP(c MPCase, rec *h.Rec) error {
 				return err
 			}
 			res = mpCheck(c, rec, mpOps[multiparty.PublicKeySwitchShare]{
-				alloc:  func() multiparty.PublicKeySwitchShare { return pr.AllocateShare(ct.Level()) },
-				gen:    func(i int, out *multiparty.PublicKeySwitchShare) error { pr.GenShare(sks[i], pk, ct, out); return nil },
-				agg:    func(a, b multiparty.PublicKeySwitchShare, out *multiparty.PublicKeySwitchShare) error { return pr.AggregateShares(a, b, out) },
+				alloc: func() multiparty.PublicKeySwitchShare { return pr.AllocateShare(ct.Level()) },
+				gen:   func(i int, out *multiparty.PublicKeySwitchShare) error { pr.GenShare(sks[i], pk, ct, out); return nil },
+				agg: func(a, b multiparty.PublicKeySwitchShare, out *multiparty.PublicKeySwitchShare) error {
+					return pr.AggregateShares(a, b, out)
+				},
 				inputs: func() string { return skFP() + ctFP() },
 				fin: func(agg multiparty.PublicKeySwitchShare, mode int) (string, error) {
 					in, out := ksReceiver(e, ct, mode, c.Seed)
@@ -511,6 +607,11 @@ func runMP(c MPCase, rec *h.Rec) error {
 	if pan != "" {
 		rec.Class("result=reference-panicked")
 		rec.Class("reference-panicked:" + c.Proto + ":" + trunc(pan, 60))
+		return nil
+	}
+	if serr != nil {
+		rec.Class("result=reference-rejected")
+		rec.Class("reference-rejected:" + c.Proto + ":" + trunc(serr.Error(), 70))
 		return nil
 	}
 	return res
